@@ -214,6 +214,15 @@ var families = []family{
 		fmt.Fprintf(&b, " fragment E%da on Node { id } fragment E%db on Node { id }", n, n)
 		return b.String()
 	}, 64, true},
+	{"exclusive-fragment-grid", func(n int) string {
+		// two same-key fields under DIFFERENT object types, each spreading the
+		// head of its own chain F0 -> ... -> Fn / G0 -> ... -> Gn: (n+1)^2
+		// fragment pairs, binomial(2n, n) monotone paths through that grid
+		return gridDoc("{ start { ... on T0 { next { ...F0 } } ... on T1 { next { ...G0 } } } }", n)
+	}, 64, true},
+	{"fragment-grid", func(n int) string {
+		return gridDoc("{ start { next { ...F0 } next { ...G0 } } }", n)
+	}, 64, true},
 	{"repeated-key-fragment-chain", func(n int) string {
 		// the same response key twice per level, each occurrence spreading the next fragment
 		var b strings.Builder
@@ -283,6 +292,18 @@ var families = []family{
 		}
 		return b.String()
 	}, 64, false},
+}
+
+func gridDoc(head string, n int) string {
+	var b strings.Builder
+	b.WriteString(head)
+	for _, p := range []string{"F", "G"} {
+		for i := 0; i < n; i++ {
+			fmt.Fprintf(&b, " fragment %s%d on Node { id ...%s%d }", p, i, p, i+1)
+		}
+		fmt.Fprintf(&b, " fragment %s%d on Node { id }", p, n)
+	}
+	return b.String()
 }
 
 // envelope constant: steps <= envC * (N+8)^3. Calibrated on the clean tree:
